@@ -145,6 +145,63 @@ pub fn gen_search(rng: &mut Rng) -> Vec<String> {
     toks
 }
 
+/// "Spin" functions: a counter-driven `while` inside a function whose bound is the call's argument,
+/// called with bounds 0..3 at top level and from inside running `while` loops of the caller (and,
+/// for scoped functions, recursively from its own loop): what a finished loop leaves on the while
+/// call stack must not matter to the next evaluation of the same loop or to the caller's loop
+pub fn gen_spin(rng: &mut Rng) -> Vec<String> {
+    let e = |s: &str| s.to_string();
+    let scoped = rng.chance(1, 2);
+    let recursive = scoped && rng.chance(1, 3);
+    // body: c = set 0 ; while lt ${c} ${1} { emit spin ${1} ${c} ; [if recursive: r = spin <1-1 via table>] ; c = inc ${c} } ; return ${c}
+    let mut wbody: Vec<String> = vec![];
+    let mut nw = 2;
+    wbody.extend(line(None, "emit", &[e("spin"), e("${1}"), e("${c}")]));
+    if recursive {
+        // bound 2 calls bound 1, bound 1 calls bound 0 (which does not loop)
+        wbody.push("I".into()); wbody.push(enc_str("if")); wbody.push(enc_list(&[e("equals"), e("${1}"), e("2")]));
+        wbody.push("B1".into()); wbody.extend(line(Some("rr"), "spin", &[e("1")]));
+        wbody.push("E1".into());
+        wbody.push(enc_str("elseif")); wbody.push(enc_list(&[e("equals"), e("${1}"), e("1")]));
+        wbody.push("B1".into()); wbody.extend(line(Some("rr"), "spin", &[e("0")]));
+        wbody.push("X-".into()); wbody.push(enc_str("end"));
+        nw += 1;
+    }
+    wbody.extend(line(Some("c"), "inc", &[e("${c}")]));
+    let mut def = vec![e("D"), enc_str(rng.pick_s(&KW_FN)), if scoped { e("1") } else { e("0") }, enc_str("spin"), e("B3")];
+    def.extend(line(Some("c"), "set", &[e("0")]));
+    def.push("W".into()); def.push(enc_str(rng.pick_s(&KW_WHILE))); def.push(enc_list(&[e("lt"), e("${c}"), e("${1}")]));
+    def.push(format!("B{}", nw)); def.extend(wbody); def.push(enc_str(rng.pick_s(&KW_ENDWHILE)));
+    def.push("R".into()); def.push(enc_str("return")); def.push(enc_str("${c}"));
+    def.push(enc_str(rng.pick_s(&KW_ENDFN)));
+    // main
+    let maxb = if recursive { 3 } else { 4 };
+    let mut main: Vec<Vec<String>> = vec![];
+    let n = 2 + rng.below(3);
+    for k in 0..n {
+        if rng.chance(1, 2) {
+            let mut st = line(Some("r0"), "spin", &[rng.below(maxb).to_string()]);
+            st.extend(line(None, "emit", &[format!("top{}", k), e("${r0}")]));
+            main.push(line(Some("r0"), "spin", &[rng.below(maxb).to_string()]));
+            main.push(line(None, "emit", &[format!("top{}", k), e("${r0}")]));
+            let _ = st;
+        } else {
+            let kv = format!("k{}", k);
+            main.push(line(Some(&kv), "set", &[e("0")]));
+            let mut w = vec![e("W"), enc_str(rng.pick_s(&KW_WHILE)), enc_list(&[e("lt"), format!("${{{}}}", kv), (1 + rng.below(3)).to_string()]), e("B3")];
+            w.extend(line(Some("r1"), "spin", &[rng.below(maxb).to_string()]));
+            w.extend(line(None, "emit", &[format!("in{}", k), format!("${{{}}}", kv), e("${r1}")]));
+            w.extend(line(Some(&kv), "inc", &[format!("${{{}}}", kv)]));
+            w.push(enc_str(rng.pick_s(&KW_ENDWHILE)));
+            main.push(w);
+        }
+    }
+    let mut toks = vec![format!("B{}", 1 + main.len())];
+    toks.extend(def);
+    for m in main { toks.extend(m); }
+    toks
+}
+
 impl Prop for C05Prop {
     fn id(&self) -> &'static str {
         "C05"
@@ -159,6 +216,10 @@ impl Prop for C05Prop {
         }
     }
     fn generate(&self, rng: &mut Rng, _tier: Tier) -> Case {
+        if rng.chance(1, 12) {
+            let toks = gen_spin(rng);
+            return Case { req: format!("c04 {} - 200000", toks.join(";")), in_domain: true, nontrivial: true, tags: vec!["spin-function", "fn", "return", "while"] };
+        }
         if rng.chance(1, 10) {
             let toks = gen_search(rng);
             let vars = if rng.chance(1, 2) { "-".to_string() } else { init_vars(rng) };
